@@ -1,7 +1,7 @@
 (** C05 - cursors enumerate keys in byte order and navigate consistently.
     Cursor.v is a line-for-line model of cursor.go (compared call by call with the real cursor on the dumped
     page/node tree); ListCursor is the specification (a sorted list with a position). *)
-From Bbolt Require Import Base Spec Cursor CursorProofs CursorEnumProofs.
+From Bbolt Require Import Base Spec Cursor CursorProofs CursorEnumProofs CursorNavProofs.
 Open Scope N_scope.
 
 (** The full statement - every call sequence on every well-formed tree returns what the sorted list returns - *)
@@ -49,3 +49,35 @@ Theorem C05_first_next_refines_list : forall t cs, wf t = true -> has_empty_leaf
   api_run true (fuel_for t) t [] cs = Ok (list_run (flatten t) Unset cs).
 Proof. exact first_next_refines_list. Qed.
 Print Assumptions C05_first_next_refines_list.
+
+(** The refinement itself, for EVERY call sequence (First, Last, Next, Prev, Seek in any order, including calls on an
+    unpositioned cursor and navigation past either end), on every well-formed tree without emptied leaves: the
+    line-for-line model of cursor.go returns exactly what the sorted-list cursor returns.  Together with the refutation
+    above this locates the property's failures exactly: only write transactions that emptied a leaf (D9; D1/D2 before
+    their repair). *)
+Theorem C05_cursor_refines_list_without_emptied_leaves : forall t cs,
+  wf t = true -> has_empty_leaf t = false -> flatten t <> [] ->
+  api_run true (fuel_for t) t [] cs = Ok (list_run (flatten t) Unset cs).
+Proof. exact nav_refines_list. Qed.
+Print Assumptions C05_cursor_refines_list_without_emptied_leaves.
+
+(** Seek returns the first element whose key is >= the sought key in byte order, or nil past the end *)
+Theorem C05_seek_meaning : forall t k, wf t = true -> has_empty_leaf t = false -> flatten t <> [] ->
+  let l := flatten t in let j := first_ge k (keys l) in
+  api_run true (fuel_for t) t [] [CSeek k] = Ok [show (nth_error l j)] /\ (j <= length l)%nat /\
+  (forall i e, (i < j)%nat -> nth_error l i = Some e -> blt (key e) k = true) /\
+  (forall e, nth_error l j = Some e -> blt (key e) k = false).
+Proof. exact seek_meaning. Qed.
+Print Assumptions C05_seek_meaning.
+
+(** keys come out strictly increasing: no key twice, none skipped (with the enumeration theorems above) *)
+Theorem C05_keys_strictly_increasing : forall t, wf t = true -> has_empty_leaf t = false -> flatten t <> [] ->
+  str_inc (keys (flatten t)) = true.
+Proof. exact flatten_strictly_increasing. Qed.
+Print Assumptions C05_keys_strictly_increasing.
+
+Theorem C05_last_prev_enumerates : forall t, wf t = true -> has_empty_leaf t = false -> flatten t <> [] ->
+  api_run true (fuel_for t) t [] (CLast :: repeat CPrev (length (flatten t))) =
+  Ok (map (fun e => show (Some e)) (rev (flatten t)) ++ [(None, None)]).
+Proof. exact last_prev_enumerates. Qed.
+Print Assumptions C05_last_prev_enumerates.
